@@ -18,8 +18,8 @@ Proof.
   unfold iteration. destruct ((timeout c >? 0) && (deadline s - now s <=? 0)) eqn:ED.
   - intros [= <-]. left. cbn. auto.
   - pose proof (guard_false _ _ _ ED) as DL.
-    destruct (roundtrip (is_head (meth c)) f) as [[retry e] snt].
-    repeat match goal with |- context [if ?b then _ else _] => destruct b end;
+    destruct (roundtrip (is_head (meth c)) f) as [[retry e] snt]. destruct snt.
+    all: repeat match goal with |- context [if ?b then _ else _] => destruct b end;
       try destruct (ask_callback c (attempts s + 1)) as [[reset retry2] called];
       repeat match goal with |- context [if ?b then _ else _] => destruct b end;
       intros [= <-]; right; cbn; repeat split; auto; lia.
@@ -29,7 +29,7 @@ Lemma iteration_inr c f s s' : iteration c f s = inr s' ->
   attempts s' = attempts s + 1 /\ attempts s' < eff_attempts c /\
   calls (r s') = calls (r s) + 1 /\ sent (r s) <= sent (r s') <= sent (r s) + 1 /\
   starts (r s') = starts (r s) ++ [(now s, deadline s)] /\ ((timeout c >? 0) = true -> now s < deadline s) /\
-  now s <= now s' /\ body_stream c = false /\
+  body_stream c = false /\
   (exists reset retry2 called, ask_callback c (attempts s + 1) = ((reset, retry2), called) /\ retry2 = true /\
      deadline s' = (if (timeout c >? 0) && reset then now s' + timeout c else deadline s)) /\
   (exists e snt, roundtrip (is_head (meth c)) f = (true, e, snt) /\ e <> ENone).
@@ -42,10 +42,6 @@ Proof.
   destruct (attempts s + 1 >=? eff_attempts c) eqn:EA; [discriminate|].
   destruct (ask_callback c (attempts s + 1)) as [[reset retry2] called] eqn:CB.
   destruct (negb retry2) eqn:ER; [discriminate|]. intros [= <-]. cbn.
-  assert (DUR : 0 <= attempt_dur c f (deadline s - now s)).
-  { unfold attempt_dur. destruct f; try lia.
-    all: destruct (timeout c >? 0) eqn:T; [destruct ((rwtimeout c >? 0) && (rwtimeout c <? deadline s - now s)) eqn:R; lia|].
-    all: exfalso; clear -RT E1 T ED; cbn in RT; injection RT as <- <- <-; cbn in E1; discriminate || idtac. }
   repeat split; auto; try lia.
   - destruct snt; lia.
   - destruct snt; lia.
